@@ -772,6 +772,13 @@ func (w *Worker) indexAddr(base Val, idx *Term, tx, ti types.Type) Val {
 
 func (w *Worker) indexValue(base Val, idx *Term, tx, ti types.Type) Val {
 	idx = w.idx64(idx, ti)
+	if s, ok := base.(Str); ok {
+		i := w.checkIndex(idx, s.Len, "string index")
+		if i >= 0 {
+			return w.byteAt(s.Obj, s.Off+i)
+		}
+		return w.loadSym(SymPtr{Obj: s.Obj, Base: s.Off, N: s.Len, Idx: idx}, types.Typ[types.Uint8])
+	}
 	tp := base.(Tuple)
 	i := w.checkIndex(idx, len(tp), "index")
 	if i >= 0 {
